@@ -9,6 +9,16 @@ TRUST = ("Trusted base: CPython, Hypothesis, the reference models under lsfverif
          "'held' means held on the cases counted in the evidence file.")
 
 CHECKS = {
+    "C20": dict(
+        category="exploration",
+        technique="model-based (stateful) property testing of the store classes against a dict model: Hypothesis-generated operation sequences incl. reopen, TTL + clock, two clients and explicit placement of cache-invalidation delivery, on a simulated Redis server",
+        text=("JSONStore (scratch file), SimpleStore, RedisDictStore and RedisListStore (on lsfverif/fakes/redis + pottery stand-ins, one or two clients with their own connections) run generated sequences of "
+              "set / nested update / append / get / get(default) / get_cached_view / delete / contains / iterate / len / set_ttl + advancing the clock / reopen / corrupting the store file / delivering n pending "
+              "invalidation messages. Every read is compared with the model (while invalidations are pending a cached view may return any earlier value of the key, afterwards only the current one), the cache may not "
+              "exceed its capacity, TTLs must reach the server, definitions must survive reopen, an unreadable file must give an empty store, and at the end every client must see exactly the model."),
+        design_ref="DESIGN.md section 5 C20",
+        note="The Redis server and pottery are simulated (fidelity assumptions in the evidence file). " + TRUST,
+    ),
     "C04": dict(
         category="exploration",
         technique="fault-injection property testing: generated machines x schedules re-run with injected engine crashes (between any two handler invocations, or after any individual broker operation inside a handler) followed by restart with redelivery; differential against the crash-free baseline run of the same case",
